@@ -191,6 +191,12 @@ class Rat:
 # AST -> Poly
 # --------------------------------------------------------------------------
 
+KW_POSITIONS = {
+    "np.fft.rfft": ["a", "n"], "np.fft.irfft": ["a", "n"], "np.fft.fft": ["a", "n"], "np.fft.ifft": ["a", "n"],
+    "np.roll": ["a", "shift", "axis"], "np.sum": ["a", "axis"], "np.zeros": ["shape", "dtype"], "np.empty": ["shape", "dtype"],
+}
+
+
 class PolyEnv:
     """Converts expressions to polynomials.
 
@@ -281,7 +287,20 @@ class PolyEnv:
             return f"{self.atom_name(e.value) if not isinstance(e.value, (ast.Name, ast.Attribute)) else self.poly(e.value).canon()}[{self._slice(e.slice)}]"
         if isinstance(e, ast.Call):
             fn = dotted(e.func) or self.atom_name(e.func)
-            args = [self._arg(a) for a in e.args] + [f"{k.arg}={self._arg(k.value)}" for k in e.keywords]
+            pos = list(e.args)
+            kws = list(e.keywords)
+            sig = KW_POSITIONS.get(fn)
+            if sig and kws:
+                # keyword arguments of well-known signatures are normalised to positional form
+                byname = {k.arg: k.value for k in kws}
+                rest = []
+                for i, name in enumerate(sig):
+                    if i < len(pos):
+                        continue
+                    if name in byname and len(pos) == i:
+                        pos.append(byname.pop(name))
+                kws = [k for k in kws if k.arg in byname]
+            args = [self._arg(a) for a in pos] + [f"{k.arg}={self._arg(k.value)}" for k in sorted(kws, key=lambda k: k.arg or "")]
             return f"{fn}({', '.join(args)})"
         if isinstance(e, ast.BinOp):
             op = type(e.op).__name__
